@@ -13,6 +13,12 @@
  *         [2] C   = number of shared cells (1..8); cell[j] initially = node j
  *         [3] NN  = number of nodes (C..32); nodes C..NN-1 start in the pool
  *         [4] drain budget
+ *         [5] layout: 0 = nodes in one array; 1 = every node on its own page
+ *                   inside a 9 GiB PROT_NONE reservation, node k at offset
+ *                   {0, 2.5, 5, 8} GiB [k mod 4] + 4096 * (k / 4), so that
+ *                   published hazard pointers are >= 2^31 apart (the model
+ *                   does not depend on the layout: node names are abstract)
+ *         K = -1 selects the comparator differential mode (see cmp_case below)
  * ops (op arg):
  *   1 join            create_and_push for this thread (once; else skipped)
  *   2 protect s*8+j   n = cell[j]; using(rec, n, s); validated iff cell[j]==n
@@ -34,6 +40,7 @@
 #include "harness.h"
 #include <malloc.h>
 #include <stdlib.h>
+#include <sys/mman.h>
 
 #define MAXK 4
 #define MAXC 8
@@ -54,7 +61,8 @@ static hcase_t* cur;
 static int K, P, C, NN;
 static _Atomic(hazard_pointer_thread_record_t*) hp_head;
 static _Atomic(hnode_t*) cell[MAXC];
-static hnode_t nodes[MAXN];
+static hnode_t node_array[MAXN];
+static hnode_t* nodev[MAXN]; /* node k lives at nodev[k] */
 static int pool[MAXN], npool;
 static _Alignas(64) char recpool[RT_MAX_THREADS][256];
 static hazard_pointer_thread_record_t* rec_of[RT_MAX_THREADS];
@@ -75,17 +83,21 @@ NOSAN static void* h_calloc(size_t n, size_t sz) {
   rt_reg(r->hazard_pointers, sizeof(void*) * K, 100 * id + 10, 8);
   return r;
 }
-NOSAN static long node_name(hazard_node_t* n) { return n ? NODE_ID + (long)((hnode_t*)n - nodes) : 0; }
+NOSAN static int node_index(hazard_node_t* n) {
+  for (int k = 0; k < MAXN; k++) if ((hazard_node_t*)nodev[k] == n) return k;
+  abort();
+}
+NOSAN static long node_name(hazard_node_t* n) { return n ? NODE_ID + node_index(n) : 0; }
 NOSAN static void gc_cb(void* data, hazard_node_t* n) {
   (void)data;
   hnode_t* h = (hnode_t*)n;
   h->payload = 0;
-  pool[npool++] = (int)(h - nodes);
+  pool[npool++] = node_index(n);
   rt_event(node_name(n), K_GC, 0);
 }
 NOSAN static hnode_t* pool_alloc(void) {
   if (!npool) return NULL;
-  hnode_t* h = &nodes[pool[--npool]];
+  hnode_t* h = nodev[pool[--npool]];
   h->payload = 1;
   rt_event(node_name(&h->hz), K_ALLOC, 0);
   return h;
@@ -169,9 +181,36 @@ static void bs_case(hcase_t* c) {
   rt_print_trace();
 }
 
+/* ---- comparator differential mode ---------------------------------------
+ * params: -1 ahi alo bhi blo  (two addresses as 32-bit halves); prints the
+ * SIGN of hazard_pointer_compare(&a, &b) as a ret event. */
+static void cmp_case(hcase_t* c) {
+  for (int i = 1; i <= 4; i++)
+    if (c->params[i] < 0 || c->params[i] > 4294967295L) { printf("-1\n"); return; }
+  uintptr_t a = ((uintptr_t)c->params[1] << 32) | (uintptr_t)c->params[2];
+  uintptr_t b = ((uintptr_t)c->params[3] << 32) | (uintptr_t)c->params[4];
+  int r = hazard_pointer_compare(&a, &b);
+  printf("0 0 909 %d\n", r < 0 ? -1 : r > 0 ? 1 : 0);
+}
+
+/* node placement: layout 0 = one array; layout 1 = far-apart pages */
+NOSAN static void place_nodes(int layout) {
+  if (layout != 1) { for (int k = 0; k < MAXN; k++) nodev[k] = &node_array[k]; return; }
+  static const size_t region[4] = {0, 2560ul << 20, 5120ul << 20, 8192ul << 20};
+  size_t total = (9216ul << 20);
+  char* base = mmap(NULL, total, PROT_NONE, MAP_PRIVATE | MAP_ANONYMOUS | MAP_NORESERVE, -1, 0);
+  if (base == MAP_FAILED) { printf("EXIT mmap\n"); fflush(stdout); _exit(5); }
+  for (int k = 0; k < MAXN; k++) {
+    char* p = base + region[k % 4] + 4096ul * (size_t)(k / 4);
+    if (mprotect(p, 4096, PROT_READ | PROT_WRITE)) { printf("EXIT mprotect\n"); fflush(stdout); _exit(5); }
+    nodev[k] = (hnode_t*)p;
+  }
+}
+
 static void h_run_case(hcase_t* c) {
   cur = c;
   K = (int)c->params[0];
+  if (K == -1) { cmp_case(c); return; }
   if (K == 0) { bs_case(c); return; }
   P = (int)c->params[1]; C = (int)c->params[2]; NN = (int)c->params[3];
   int dmax = (int)c->params[4];
@@ -180,13 +219,14 @@ static void h_run_case(hcase_t* c) {
   }
   rt_reg((void*)&hp_head, sizeof hp_head, 0, 8);
   rt_reg((void*)cell, sizeof cell, 10, 8);
-  rt_name(nodes, sizeof nodes, NODE_ID, sizeof nodes[0]);
+  place_nodes((int)c->params[5]);
   for (int k = 0; k < NN; k++) {
-    nodes[k].hz.gc_function = gc_cb;
-    nodes[k].payload = k < C ? 1 : 0;
-    rt_reg(&nodes[k].payload, sizeof(long), 2000 + k, 8);
+    rt_name(nodev[k], sizeof(hnode_t), NODE_ID + k, sizeof(hnode_t));
+    nodev[k]->hz.gc_function = gc_cb;
+    nodev[k]->payload = k < C ? 1 : 0;
+    rt_reg(&nodev[k]->payload, sizeof(long), 2000 + k, 8);
   }
-  for (int j = 0; j < C; j++) cell[j] = &nodes[j];
+  for (int j = 0; j < C; j++) cell[j] = nodev[j];
   /* LIFO pool: node C is allocated first */
   for (int k = NN - 1; k >= C; k--) pool[npool++] = k;
   for (int t = 0; t < P; t++) {
